@@ -997,6 +997,9 @@ func RunWorker(prop string, seed uint64, worker, cases int, out string) error {
 		if prop == "C09" && idx%8 == 5 {
 			caseRF = 5 // the concurrent re-registration scenario needs a majority left after two deletions
 		}
+		if prop == "C19" {
+			caseRF = 1 // a cloned volume starts with its clone replica alone
+		}
 		w := NewWorld(prop, caseRF, size, r, res, 20+(propNo*16+worker)%200, (os.Getpid()*7)%250)
 		w.Seed, w.Case, w.Journal = cs, worker*100000+c, j
 		runScenario(w, prop, idx)
@@ -1034,6 +1037,8 @@ func runScenario(w *World, prop string, idx int) {
 		RunMembership(w, idx)
 	case "C13":
 		RunSnapshots(w, idx)
+	case "C19":
+		RunCloneStart(w, idx)
 	case "C09":
 		if idx%8 == 5 {
 			RunElectionRace(w, idx)
